@@ -355,57 +355,44 @@ def slashRes (r : Bytes) : SlashRes :=
         | none => .silent true
     else .bad
 
+/-- The result of a `Lex()` call that started (after skipping) in state `st` and stopped in
+`st'`, with `lex.ts = ts`: token, `Pos()`, and the `newline` actions of the last step. -/
+def mkTok (tok : Tok) (st st' : LxSt) (ts : Nat) (err : Bool) (doc : Option Bytes) (nl : Nat) :
+    LTok × LxSt :=
+  (⟨tok, posOf st'.line st'.lineStart ts, ts, st'.off, err, doc, nl + (st'.line - st.line), st.dirty⟩,
+   { st' with ts := ts })
+
 /-- One `Lex()` call: skip blanks and comments, then return a token. `doc`, `nl`, `skipped`
 accumulate over the skipped items. Fuel: one unit per skipped item. -/
 def lexOne : Nat → LxSt → Option Bytes → Nat → Bool → LTok × LxSt
-  | 0, st, doc, nl, _ =>
-    (⟨.eof, posOf st.line st.lineStart st.ts, st.ts, st.off, false, doc, nl, st.dirty⟩, st)
+  | 0, st, doc, nl, _ => mkTok .eof st st st.ts false doc nl
   | f + 1, st, doc, nl, skipped =>
     match st.rest with
-    | [] =>
-      let ts := if skipped then 0 else st.ts
-      (⟨.eof, posOf st.line st.lineStart ts, ts, st.off, false, doc, nl, st.dirty⟩, { st with ts := ts })
+    | [] => mkTok .eof st st (if skipped then 0 else st.ts) false doc nl
     | c :: r =>
       if isWs c then lexOne f (st.advance 1 1) doc nl true
       else if c = 10 then lexOne f (st.advance 1 1) doc (nl + 1) true
-      else if c = 35 then
-        let n := 1 + lineLen r
-        lexOne f (st.advance n n) doc nl true
+      else if c = 35 then lexOne f (st.advance (1 + lineLen r) (1 + lineLen r)) doc nl true
       else if c = 47 then
         match slashRes r with
         | .skip n m isDoc =>
-          let st' := st.advance n m
-          if isDoc then lexOne f st' (some (st.rest.take n)) 0 true
-          else lexOne f st' doc (nl + (st'.line - st.line)) true
-        | .bad =>
-          (⟨.eof, posOf st.line st.lineStart st.off, st.off, st.off, true, doc, nl, st.dirty⟩,
-           { st with ts := st.off })
+          if isDoc then lexOne f (st.advance n m) (some (st.rest.take n)) 0 true
+          else lexOne f (st.advance n m) doc (nl + ((st.advance n m).line - st.line)) true
+        | .bad => mkTok .eof st st st.off true doc nl
         | .silent count =>
-          let st' := if count then st.advance st.rest.length st.rest.length else st
-          (⟨.eof, posOf st'.line st'.lineStart st.off, st.off, st'.off, false, doc,
-            nl + (st'.line - st.line), st.dirty⟩, { st' with ts := st.off })
+          mkTok .eof st (if count then st.advance st.rest.length st.rest.length else st) st.off false doc nl
       else
         match tokenRes c r with
-        | .tok t n m =>
-          let st' := st.advance n m
-          (⟨t, posOf st'.line st'.lineStart st.off, st.off, st'.off, false, doc,
-            nl + (st'.line - st.line), st.dirty⟩, { st' with ts := st.off })
-        | .lexErr n m =>
-          let st' := st.advance n m
-          (⟨.eof, posOf st'.line st'.lineStart st.off, st.off, st'.off, true, doc,
-            nl + (st'.line - st.line), st.dirty⟩, { st' with ts := st.off })
-        | .bad =>
-          (⟨.eof, posOf st.line st.lineStart st.off, st.off, st.off, true, doc, nl, st.dirty⟩,
-           { st with ts := st.off })
-        | .silent =>
-          (⟨.eof, posOf st.line st.lineStart st.off, st.off, st.off, false, doc, nl, st.dirty⟩,
-           { st with ts := st.off })
+        | .tok t n m => mkTok t st (st.advance n m) st.off false doc nl
+        | .lexErr n m => mkTok .eof st (st.advance n m) st.off true doc nl
+        | .bad => mkTok .eof st st st.off true doc nl
+        | .silent => mkTok .eof st st st.off false doc nl
 
 def lexCall (st : LxSt) : LTok × LxSt := lexOne (st.rest.length + 1) st none 0 false
 
 /-- successive `Lex()` results up to and including the first end-of-input token. -/
 def lexLoop : Nat → LxSt → List LTok
-  | 0, st => [⟨.eof, posOf st.line st.lineStart st.ts, st.ts, st.off, false, none, 0, st.dirty⟩]
+  | 0, st => [(mkTok .eof st st st.ts false none 0).1]
   | f + 1, st =>
     let r := lexCall st
     if r.1.tok = .eof then [r.1] else r.1 :: lexLoop f r.2
